@@ -88,7 +88,8 @@ def gen(cls, idx, rng, tier):
             ops.append(("seek", v, rng.choice(edge), rng.choice([0, 1, 2, 0,
                                                                  1, 2, 3])))
         elif k < .42:
-            n = rng.choice([None, -1, 0, 1, 3, length, length + 5, 10 ** 6,
+            n = rng.choice([None, -1, -2, -100, 0, 1, 3, length, length + 5,
+                            10 ** 6,
                             rng.randint(0, 300)])
             ops.append(("read", v, n))
         elif k < .62:
